@@ -824,9 +824,11 @@ class BeliefPropagation(Inference):
             marginal_2 = getattr(self.clique_beliefs[edge[1]], operation)(
                 list(frozenset(edge[1]) - sepset), inplace=False
             )
-            if (
-                marginal_1 != marginal_2
-                or marginal_1 != self.sepset_beliefs[sepset_key]
+            # DiscreteFactor.__eq__ compares with an absolute tolerance: scale it down to
+            # the magnitude of the (unnormalized) beliefs, else tiny beliefs always "agree".
+            atol = 1e-8 * min(1.0, float(compat_fns.max(marginal_1.values)))
+            if not marginal_1.__eq__(marginal_2, atol=atol) or not marginal_1.__eq__(
+                self.sepset_beliefs[sepset_key], atol=atol
             ):
                 return False
         return True
